@@ -133,7 +133,10 @@ class C23(core.Check):
             fs.put(target, b'\xff\xfe\x00garbage' + new[:50])
         elif old == 'stale_tmp_same_pid':
             fs.put(target, b'/* old */\n')
-            fs.put(tmp_same, b'/* half written by a previous, crashed run with the same pid */' + new[:100])
+            junk = b'/* half written by a previous, crashed run with the same pid */' + new[:100]
+            if case.get('bufsize', 0) % 3 == 1 or len(new) % 2:
+                junk = new + b'\n/* leftover tail of an older, longer temp file */\n' * 7
+            fs.put(tmp_same, junk)
         elif old == 'stale_tmp_other_pid':
             fs.put(target, b'/* old */\n')
             fs.put('%s.~%d' % (target, fs.pid + 1), new[:100])
